@@ -170,6 +170,42 @@ pub fn check_lookup(c: &LookupCase, st: &mut Stats) -> Result<(), String> {
             return Err(format!("at u={u}: lookup has no type but from_timespec returned {dt:?}"));
         }
     }
+    // The same zone as a user usually holds it: decoded from a TZif file (written by the independent RFC 8536 writer — version 1 with
+    // 32-bit times when the zone fits, and version 2 / 3 with 64-bit times). The lookups on the decoded zone must give the answers
+    // just validated against the model: a reader that moves a transition time (seeded changes C03-r13bm1: 32-bit times zero-extended;
+    // C03-r13bm2: times clamped from below) breaks "the type of the latest transition at or before that instant" for every zone read
+    // from a file while every constructor-built zone keeps working.
+    if n <= 4096 && !z.types.is_empty() {
+        let ent: Vec<u32> = c.seeds.iter().flat_map(|&x| [x as u32, (x >> 32) as u32]).chain([n as u32, 0x9e37_79b9]).collect();
+        for version in [1u8, 2 + (ent[0] % 2) as u8] {
+            let fc = crate::props::c08::FileCase { zone: z.clone(), version, ent: ent.clone(), defect: crate::props::c08::Defect::None };
+            let Some(fm) = crate::props::c08::file_of(&fc) else {
+                st.class("not_representable_as_file");
+                continue;
+            };
+            let bytes = crate::tzif::write(&fm);
+            let decoded = match TimeZone::from_tz_data(&bytes) {
+                Ok(d) => d,
+                Err(e) => return Err(format!("zone {z:?} written as a well-formed TZif v{version} file was refused ({e:?}): no lookup is possible on it")),
+            };
+            for &u in &us {
+                st.eval(1);
+                let a = zr.find_local_time_type(u);
+                let b = decoded.find_local_time_type(u);
+                let agree = match (&a, &b) {
+                    (Ok(x), Ok(y)) => x.ut_offset() == y.ut_offset() && x.is_dst() == y.is_dst() && x.time_zone_designation() == y.time_zone_designation(),
+                    (Err(x), Err(y)) => format!("{x:?}") == format!("{y:?}"),
+                    _ => false,
+                };
+                // designation-less types cannot be spelled in a file (the writer gives them a name): compare offset and flag there
+                let agree = agree || matches!((&a, &b), (Ok(x), Ok(y)) if x.ut_offset() == y.ut_offset() && x.is_dst() == y.is_dst() && x.time_zone_designation().is_empty());
+                if !agree && model.forward(u) != Fwd::Unspecified {
+                    return Err(format!("zone {z:?}: at u={u} the zone decoded from its TZif v{version} file answers {b:?}, the zone itself (and the model) {a:?}"));
+                }
+            }
+            st.class(if version == 1 { "also_through_a_v1_file" } else { "also_through_a_v2_or_v3_file" });
+        }
+    }
     if st.wants_sample("zone") {
         st.sample("zone", || json!({"transitions": n, "types": z.types.len(), "leaps": z.leaps.len(), "trailer": format!("{:?}", z.trailer).chars().take(80).collect::<String>(), "lookups": us.len()}));
     }
